@@ -5,6 +5,11 @@ From MomoCommon Require Import GenPrelude.
 From C17 Require Import SorterSearch Search_Proofs Gen_Searches Searches_Refine SearchGlue Gen_FindOther Gen_FindNext FindNext_Refine.
 Local Open Scope Z_scope.
 
+Lemma bs_from_eq_F cmp lft m : bs_from cmp lft m = (r <- bs_loop log_fuel (fun k => cmp (lft + k)) 0 m ;; Ok (lft + fst r, snd r)).
+Proof. reflexivity. Qed.
+Lemma es_eq_F cmp n : SorterSearch.pvExponentialSearch cmp n = es_loop log_fuel cmp n 0 0.
+Proof. reflexivity. Qed.
+
 Lemma bs_nonneg cmp : forall f l r k b, 0 <= l -> bs_loop f cmp l r = Ok (k, b) -> 0 <= k.
 Proof.
   induction f as [|f IH]; intros l r k b Hl H; [simpl in H; discriminate|]. rewrite bs_loop_eq in H.
@@ -16,7 +21,7 @@ Qed.
 
 Lemma bs_from_nonneg cmp lft m k b : 0 <= lft -> bs_from cmp lft m = Ok (k, b) -> 0 <= k.
 Proof.
-  unfold bs_from, SorterSearch.pvBinarySearch. intros Hl H.
+  rewrite bs_from_eq_F. intros Hl H.
   destruct (bs_loop log_fuel (fun k0 => cmp (lft + k0)) 0 m) as [[k0 b0]| | |] eqn:E; try discriminate. cbn [bind fst snd] in H.
   assert (HkE : (k, b) = (lft + k0, b0)) by congruence. injection HkE as -> _. pose proof (bs_nonneg _ _ _ _ _ _ (Z.le_refl 0) E). lia.
 Qed.
@@ -42,45 +47,63 @@ Section GlueRefine.
     destruct st as [l r0]. destruct code; cbn [bs_result] in G2; subst r; reflexivity.
   Qed.
 
-  Lemma gen_es_eq F n r : n < 2 ^ 64 -> F = log_fuel -> es_loop F cmpO n 0 0 = Ok r -> gen_es c F n = r.
+  Lemma gen_bs_from_eq lft m r : bs_from cmpO lft m = Ok r -> gen_bs c log_fuel lft m = r.
   Proof.
-    intros Hn HF H. destruct (gen_es_simulates _ _ Hagree 0 n Hn F 0 0 r ltac:(lia) H) as (code & st & G1 & G2).
-    unfold gen_es. rewrite G1. destruct st as [i lft]. cbn [es_continuation] in G2.
-    assert (Hbs : forall m, bs_from cmpO lft m = Ok r -> gen_bs c F lft m = r).
-    { intros m Hb. unfold bs_from, SorterSearch.pvBinarySearch in Hb. rewrite <- HF in Hb.
-      destruct (bs_loop F (fun k => cmpO (lft + k)) 0 m) as [r0| | |] eqn:E; try discriminate. cbn [bind] in Hb.
-      rewrite (gen_bs_eq F lft m r0 E). inversion Hb. reflexivity. }
-    destruct code as [code|]; [|apply Hbs; exact G2].
-    destruct (Z.eqb_spec code 1) as [->|N]; [inversion G2; reflexivity|].
-    destruct code as [|p|p]; try discriminate. destruct p as [p|p|]; try discriminate; try lia.
-    destruct p; try discriminate. apply Hbs. exact G2.
+    rewrite bs_from_eq_F. intros Hb.
+    destruct (bs_loop log_fuel (fun k => cmpO (lft + k)) 0 m) as [r0| | |] eqn:E; try discriminate. cbn [bind] in Hb.
+    rewrite (gen_bs_eq log_fuel lft m r0 E). inversion Hb. reflexivity.
+  Qed.
+
+  Lemma es_cont_cases n code i lft r : es_continuation cmpO n code (i, lft) = Ok r ->
+    (code = Some 1 /\ r = (i, true)) \/ (code = Some 2 /\ bs_from cmpO lft (i - lft) = Ok r) \/ (code = None /\ bs_from cmpO lft (n - lft) = Ok r).
+  Proof.
+    unfold es_continuation. destruct code as [code|]; [|intros H; right; right; split; [reflexivity|exact H]].
+    destruct (Z.eq_dec code 1) as [->|N1]; [intros H; left; split; [reflexivity|inversion H; reflexivity]|].
+    destruct (Z.eq_dec code 2) as [->|N2]; [intros H; right; left; split; [reflexivity|exact H]|].
+    intros H. exfalso. destruct code as [|q|q]; [discriminate H| |discriminate H].
+    destruct q as [q|q|]; [destruct q; discriminate H|destruct q; try lia; discriminate H|lia].
+  Qed.
+
+  Lemma gen_es_eq n r : n < 2 ^ 64 -> es_loop log_fuel cmpO n 0 0 = Ok r -> gen_es c log_fuel n = r.
+  Proof.
+    intros Hn H. destruct (gen_es_simulates _ _ Hagree 0 n Hn log_fuel 0 0 r (Z.le_refl 0) H) as (code & st & G1 & G2).
+    unfold gen_es. rewrite G1. destruct st as [i lft].
+    destruct (es_cont_cases n code i lft r G2) as [[-> ->]|[[-> Hb]|[-> Hb]]].
+    - reflexivity.
+    - change (2 =? 1) with false. cbv iota. apply (gen_bs_from_eq lft (i - lft) r Hb).
+    - apply (gen_bs_from_eq lft (n - lft) r Hb).
   Qed.
 End GlueRefine.
+
+Lemma eq_ii_val count item eqf a b e : SorterSearch.eq_ii count item eqf a b = Ok e -> e = eqf (item a) (item b).
+Proof.
+  unfold SorterSearch.eq_ii, SorterSearch.rdi. destruct (inb count a); [|discriminate]. cbn [bind].
+  destruct (inb count b); [|discriminate]. cbn [bind]. intros X. injection X as <-. reflexivity.
+Qed.
 
 Section FindOtherRefine.
   Variable count : Z.
   Variable item : Z -> Z.
   Variable eqf : Z -> Z -> bool.
-  Variable F : nat.
-  Hypothesis HF : F = log_fuel.
 
   (* the generated pvFindOther at position p with n items returns the position p + o the hand model computes on the view p + k *)
   Theorem gen_findother_refines (v : Z -> Z) p n o : (forall k, v k = p + k) -> 0 < n < 2 ^ 62 ->
     SorterSearch.pvFindOther count item eqf v n = Ok o ->
-    Gen_FindOther.pvFindOther eqf F item p n = Ok (p + o) /\ 1 <= o.
+    Gen_FindOther.pvFindOther eqf log_fuel item p n = Ok (p + o) /\ 1 <= o.
   Proof.
     intros Hv Hn H. unfold SorterSearch.pvFindOther in H. destruct (Z.ltb_spec 0 n); [|lia].
     set (cmpO := fun i => e <- SorterSearch.eq_ii count item eqf (v 0) (v (1 + i)) ;; Ok (if e : bool then -1 else 1)) in H.
-    destruct (SorterSearch.pvExponentialSearch cmpO (n - 1)) as [r| | |] eqn:E; try discriminate. cbn [bind] in H. inversion H; subst o.
+    destruct (SorterSearch.pvExponentialSearch cmpO (n - 1)) as [r| | |] eqn:E; try discriminate. change (Ok (1 + fst r) = Ok o) in H. assert (Ho : o = 1 + fst r) by congruence. clear H. subst o.
     assert (Hag : forall i v, cmpO i = Ok v -> v = findOther_cmp eqf item p (p + 1 + i)).
-    { intros i w. unfold cmpO, SorterSearch.eq_ii, SorterSearch.rdi. rewrite !Hv.
-      destruct (inb count (p + 0)); [|discriminate]. cbn [bind]. destruct (inb count (p + (1 + i))); [|discriminate]. cbn [bind].
-      intros X. inversion X. unfold findOther_cmp. rewrite Z.add_0_r. replace (p + (1 + i)) with (p + 1 + i) by lia. reflexivity. }
-    unfold SorterSearch.pvExponentialSearch in E. rewrite <- HF in E.
-    pose proof (gen_es_eq cmpO _ Hag F (n - 1) r ltac:(lia) HF E) as G.
-    destruct r as [k b]. pose proof (es_nonneg cmpO (n - 1) F 0 0 k b (Z.le_refl 0) (Z.le_refl 0) E) as Hk.
+    { intros i w. unfold cmpO. cbv beta.
+      destruct (SorterSearch.eq_ii count item eqf (v 0) (v (1 + i))) as [e| | |] eqn:Ee; try discriminate. cbn [bind].
+      intros X. injection X as <-. rewrite (eq_ii_val _ _ _ _ _ _ Ee). rewrite !Hv. unfold findOther_cmp.
+      rewrite Z.add_0_r. replace (p + (1 + i)) with (p + 1 + i) by lia. reflexivity. }
+    rewrite es_eq_F in E.
+    pose proof (gen_es_eq cmpO _ Hag (n - 1) r ltac:(lia) E) as G.
+    destruct r as [k b]. pose proof (es_nonneg cmpO (n - 1) log_fuel 0 0 k b (Z.le_refl 0) (Z.le_refl 0) E) as Hk.
     unfold Gen_FindOther.pvFindOther. destruct (Z.gtb_spec n 0); [|lia]. cbv zeta.
-    rewrite (wrapU_small 64 (n - 1)) by lia. unfold es_iterator. rewrite G. cbn [fst]. split; [f_equal; lia|lia].
+    rewrite (wrapU_small 64 (n - 1)) by lia. unfold es_iterator. rewrite G. change (fst (k, b)) with k. split; [replace (p + 1 + k) with (p + (1 + k)) by lia; reflexivity|lia].
   Qed.
 End FindOtherRefine.
 
@@ -97,7 +120,7 @@ Proof.
   intros Hidx Hcnt. apply (gen_findnext_simulates count hash item eqf qh qx idx cnt Hcnt (gen_other eqf item)).
   intros rel o Hrel Ho.
   assert (Hpos : 0 < cnt - rel) by (unfold SorterSearch.pvFindOther in Ho; destruct (Z.ltb_spec 0 (cnt - rel)); [lia|discriminate]).
-  destruct (gen_findother_refines count item eqf log_fuel eq_refl (fun k => fwd idx (rel + k)) (idx + rel) (cnt - rel) o
+  destruct (gen_findother_refines count item eqf (fun k => fwd idx (rel + k)) (idx + rel) (cnt - rel) o
               ltac:(intros k; unfold fwd; lia) ltac:(lia) Ho) as [G1 G2].
   unfold gen_other. rewrite G1. split; [reflexivity|exact G2].
 Qed.
